@@ -81,6 +81,14 @@ PROPS = {
         real=['network::DnsRequest (reply parser, request table)', 'network::UdpSocket', 'eventx::TimeoutMonitor', 'util::Deserializer', 'event loop', 'kernel UDP over 127.0.0.1 (redirected at the sendto seam)'],
         stub=['the name servers and the network between client and servers (replies crafted and scheduled by the plan)', 'monotonic clock'],
     ),
+    'C18': dict(
+        harness='c18_coroutine',
+        title='Coroutine primitives',
+        flavours=dict(asan=dict(quick_s=30, thorough_s=600)),
+        mode='single',
+        real=['coroutine::Scheduler (ucontext switching, ready queue, cancel, cleanup, join)', 'coroutine::Channel/Mutex/Semaphore/Broadcast/Condition', 'event loop (runNext-driven scheduling)'],
+        stub=['nothing in tbox; the routine bodies are scripts interpreted by the harness', 'monotonic clock'],
+    ),
 }
 
 NOT_APPLICABLE = {
@@ -92,4 +100,4 @@ NOT_APPLICABLE = {
 
 # planned in DESIGN.md §7 but whose harness is not built yet — not claimed until it is
 PENDING = {p: 'harness not built yet (planned in DESIGN.md §7); not claimed until the check exists' for p in
-           ['C04', 'C09', 'C11', 'C13', 'C17', 'C18', 'C20']}
+           ['C04', 'C09', 'C11', 'C13', 'C17', 'C20']}
